@@ -8,11 +8,12 @@ from .index import AnalysisError
 
 
 def mkflow(ix, site, local_types=None, which=0, tab=None, env=None,
-           extra_family=None):
+           extra_family=None, erase_broadcast=True):
     f = ix.func(site, which) if isinstance(site, str) else site
     canon = make_canon(ix, f.cls, extra_family, local_types)
     conv = Conv(tab or Table(), env or {}, canon)
     fl = Flow(f, conv)
+    fl.conv.erase_broadcast = erase_broadcast
     fl.canon = canon
     fl.run()
     return fl
@@ -215,3 +216,32 @@ def dict_items(fl, rf):
         key = ka.args[0].strip("'\"") if ka is not None and ka.head == 'const' else fmt(fl, k)
         out[key] = v
     return out
+
+
+def inline_local(ix, fl, rf, outer, names):
+    """Replace calls of closures defined inside `outer` (callexpr atoms whose
+    callee is localdef(name)) by the closure's single return expression."""
+    from .index import FuncInfo
+    import ast as _ast
+
+    def f(a, at, nargs):
+        if at.head != 'callexpr':
+            return None
+        ca = atom_of(fl, nargs[0])
+        if ca is None or ca.head != 'localdef' or ca.args[0] not in names:
+            return None
+        node = None
+        for n in _ast.walk(outer.node):
+            if isinstance(n, _ast.FunctionDef) and n.name == ca.args[0] and n is not outer.node:
+                node = n
+        if node is None:
+            raise AnalysisError('closure %s not found' % ca.args[0])
+        g = FuncInfo(outer.module, outer.qualname + '.' + node.name, node, cls=outer.cls, parent=outer)
+        env = dict(zip(g.params(), nargs[1:]))
+        sub = Flow(g, Conv(fl.tab, env, getattr(fl, 'canon', None)))
+        sub.run()
+        r = sub.of('return')
+        if len(r) != 1:
+            raise AnalysisError('closure %s has %d returns' % (node.name, len(r)))
+        return r[0].value
+    return fl.tab.rewrite(rf, f)
